@@ -36,6 +36,8 @@ fn gen_ready(g: &mut Rng, _tier: Tier) -> J {
         // when the peer writes, relative to the moment all waiters are blocked
         "write_after_us" => g.range(500, 48_000),
         "second_write" => g.chance(1, 3),
+        // the target waits again on the same (still registered) descriptor after each delivery
+        "rounds" => *g.pick(&[1u64, 1, 2, 3]),
         "sim" => gen_sim(g, SimOpts { max_points: 3_000_000, max_sim_ms: 30_000, timing: true, ..SimOpts::default() }),
     }
 }
@@ -67,6 +69,8 @@ struct WaiterRec {
     returned: Option<u64>,
     ret: isize,
     byte: u8,
+    /// completed recv calls so far
+    done: u64,
 }
 
 /// Root-cause probe: the descriptor's read interest is registered with the poller of one event loop
@@ -132,6 +136,7 @@ fn body_ready(plan: &J) {
         set_timeout(fd, libc::SO_RCVTIMEO, 400);
         socks.push((fd, peer));
         let r = recs.clone();
+        let my_rounds = if i == plan.gus("target") % n { plan.gu("rounds").clamp(1, 3) } else { 1 };
         handles.push(EventLoops::submit_task(
             Some(format!("waiter-{i}")),
             move |_| {
@@ -139,12 +144,18 @@ fn body_ready(plan: &J) {
                     _ = co.put("waiter", i);
                 }
                 r.lock().unwrap_or_else(|e| e.into_inner())[i].started = Some(now());
-                let mut b = [0u8; 4];
-                let got = hk::recv(None, fd, b.as_mut_ptr().cast(), 1, 0);
-                let mut g = r.lock().unwrap_or_else(|e| e.into_inner());
-                g[i].returned = Some(now());
-                g[i].ret = got;
-                g[i].byte = b[0];
+                for _ in 0..my_rounds {
+                    let mut b = [0u8; 4];
+                    let got = hk::recv(None, fd, b.as_mut_ptr().cast(), 1, 0);
+                    let mut g = r.lock().unwrap_or_else(|e| e.into_inner());
+                    g[i].returned = Some(now());
+                    g[i].ret = got;
+                    g[i].byte = b[0];
+                    g[i].done += 1;
+                    if got != 1 {
+                        break;
+                    }
+                }
                 Some(i)
             },
             None,
@@ -232,6 +243,57 @@ fn body_ready(plan: &J) {
     for (i, w) in snap.iter().enumerate() {
         if i != target && w.returned.is_some() {
             fail("wrong-waiter-woken", format!("the peer wrote only to waiter {target}'s socket, but waiter {i} (another descriptor) returned from its recv with {}", w.ret));
+        }
+    }
+    // ---- later rounds: the target waits again on its (still registered) descriptor
+    for round in 1..plan.gu("rounds").clamp(1, 3) {
+        let done_before = recs.lock().unwrap_or_else(|e| e.into_inner())[target].done;
+        if done_before != round {
+            break;
+        }
+        // parked again, with at least 3 ms of its slice left
+        let mut tries = 0;
+        let parked = loop {
+            let last = spy.log.lock().unwrap_or_else(|e| e.into_inner()).iter().rev().find(|e| e.0 == target).cloned();
+            if let Some((_, SyscallState::Suspend(ts), _)) = last {
+                if ts > now() + 3_000_000 && ts != u64::MAX {
+                    break true;
+                }
+            }
+            tries += 1;
+            if tries > 400 {
+                break false;
+            }
+            vstd::thread::sleep(Duration::from_micros(500));
+        };
+        if !parked || recs.lock().unwrap_or_else(|e| e.into_inner())[target].done != round {
+            break;
+        }
+        note_registration(&spy, target, socks[target].0);
+        let pr = [0x50u8 + round as u8];
+        sim::point("harness.peer-write");
+        let tw = now();
+        _ = unsafe { libc::write(socks[target].1, pr.as_ptr().cast(), 1) };
+        mio::vsim_check_ready();
+        sim::count("kern.readiness");
+        vstd::thread::sleep(Duration::from_millis(1));
+        let sn = recs.lock().unwrap_or_else(|e| e.into_inner())[target];
+        if sn.done == round + 1 && sn.returned.is_some_and(|t| t <= tw + 1_000_000) && sn.byte == pr[0] {
+            probe("ready.prompt-again");
+        } else {
+            let mut waited = 1u64;
+            while recs.lock().unwrap_or_else(|e| e.into_inner())[target].done == round && waited < 400 {
+                vstd::thread::sleep(Duration::from_millis(1));
+                waited += 1;
+            }
+            let sn = recs.lock().unwrap_or_else(|e| e.into_inner())[target];
+            fail(
+                "wake-late",
+                format!(
+                    "round {round}: the peer wrote again to waiter {target}'s socket while the coroutine was parked in its next hooked recv on the same descriptor; 1 ms later it was still parked; it returned {} after the write (the readiness event did not resume it)",
+                    if sn.done > round { format!("{} us", sn.returned.unwrap_or(tw).saturating_sub(tw) / 1000) } else { "never".to_string() }
+                ),
+            );
         }
     }
     if plan.gb("second_write") && n > 1 {
